@@ -78,8 +78,10 @@ class FeatureIDEReader(TextToModel):
         children = []
         feature = None
 
+        feature_tags = (FeatureIDEReader.TAG_FEATURE, FeatureIDEReader.TAG_AND,
+                        FeatureIDEReader.TAG_OR, FeatureIDEReader.TAG_ALT)
         for child in root_tree:
-            if not child.tag == FeatureIDEReader.TAG_GRAPHICS:
+            if child.tag in feature_tags:  # skip graphics, description, ...
                 is_abstract = (
                     FeatureIDEReader.ATTRIB_ABSTRACT in child.attrib
                     and child.attrib[FeatureIDEReader.ATTRIB_ABSTRACT] == "true"
@@ -136,7 +138,7 @@ class FeatureIDEReader(TextToModel):
         constraints = []
         for ctc in ctcs_root:
             index = 0
-            if ctc[index].tag == FeatureIDEReader.TAG_GRAPHICS:
+            while ctc[index].tag in (FeatureIDEReader.TAG_GRAPHICS, 'description'):
                 index += 1
             rule = ctc[index]
             ast = self._parse_rule(rule)
